@@ -2,6 +2,9 @@ import MidnightZK.Proofs.C06.Edwards
 import MidnightZK.Proofs.C06.EdwardsChip
 import MidnightZK.Proofs.C06.Weierstrass
 import MidnightZK.Proofs.C06.Group
+import MidnightZK.Proofs.C06.EdAssoc
+import MidnightZK.Proofs.C06.ForeignWiring
+import MidnightZK.Proofs.C06.Incomplete
 import MidnightZK.Model.C06.Edwards
 import MidnightZK.Model.C06.Weierstrass
 import MidnightZK.Gen.C06Gates
@@ -11,10 +14,12 @@ import MidnightZK.Gen.C06Gates
 Property theorems (helper lemmas live in `MidnightZK/Proofs/C06`). The gate theorems are stated
 over the gate polynomials dumped from the real `EccChip::configure` (`Gen/C06Gates.lean`), for an
 arbitrary field `F`; the curve parameter is the constant found in those polynomials (`jubDF`).
-Hypotheses that are not proved here, always explicit: `EdComplete d` (`2 ≠ 0`, `-1` is a square,
+Hypothesis that is not proved here, always explicit: `EdComplete d` (`2 ≠ 0`, `-1` is a square,
 `d` is not — the conditions of the completeness theorem of Bernstein–Lange; the Euler criterion
-for the concrete `d` is `jubjub_d_nonsquare_euler` below) and `EdAssoc d` (associativity of the
-affine law).
+for the concrete `d` is `jubjub_d_nonsquare_euler` below). Associativity of the affine
+twisted-Edwards law is a theorem (`edwards_add_assoc`). For the foreign Weierstrass chip the
+instruction-level theorems are over the coordinates; the loop-level theorems are over an abstract
+commutative group (that the curve points with the chord–tangent law form one is not proved).
 -/
 namespace MidnightZK.C06
 
@@ -182,17 +187,55 @@ theorem identity_sound {d : F} (hc : EdComplete d) {P : F × F} (hP : EdOnP d P)
 
 /-! ## Scalar multiplication -/
 
+/-- **Associativity of the twisted-Edwards addition law** on curve points (`a = −1`, `d` a
+non-square, `−1` a square): `(P + Q) + R = P + (Q + R)` for the affine formulas with inverses.
+Two polynomial identities of degree 15 (`assoc_x_key`, `assoc_y_key`: the cross-multiplied
+difference lies in the ideal of the three curve equations) plus `edwards_denominators_ne_zero`.
+With closure, the neutral element, `negate_sound` and commutativity (`edAdd_comm`) the curve points
+form a commutative group: nothing about the group law of the native chip is assumed any more. -/
+theorem edwards_add_assoc {d : F} (hc : EdComplete d) {P Q R : F × F} (hP : EdOnP d P)
+    (hQ : EdOnP d Q) (hR : EdOnP d R) :
+    edAdd d (edAdd d P Q) R = edAdd d P (edAdd d Q R) := edwards_assoc hc P Q R hP hQ hR
+
 /-- **`EccChip::mul`**: if every row of the `assign mul` region satisfies the conditional-add gate
 (with the base copied in columns 2, 3 and a bit in column 4), every row but the last satisfies the
 double gate, and the first accumulator is the neutral element, then the point returned (columns
 5, 6 of the last row) is `[n]·base` with `n = Σ bᵢ 2^(len-1-i)` the integer whose big-endian bits
-are the `b` cells — as an integer, so scalars at or above the group order (bit strings from
-`scalar_from_le_bytes` / `convert`) are covered. -/
-theorem scalar_mul_loop [DecidableEq F] {d : F} (hc : EdComplete d) (ha : EdAssoc d)
+are the `b` cells — as an integer, for bit vectors of ANY length, so scalars at or above the group
+order (bit strings from `scalar_from_le_bytes` / `convert`) are covered. (Strengthened: the
+associativity hypothesis `EdAssoc d` of earlier rounds is now proved, `edwards_add_assoc`.) -/
+theorem scalar_mul_loop [DecidableEq F] {d : F} (hc : EdComplete d)
     {base : F × F} (hB : EdOnP d base) (r0 : EccRow F) (rows : List (EccRow F))
     (h : MulChain d base (r0 :: rows)) (hacc : (r0.xq, r0.yq) = (0, 1)) :
     chainResult (r0 :: rows) = some (edSmul d (chainScalar 0 (r0 :: rows)) base) :=
-  mulChain_sound hc ha hB rows 0 r0 h (by rw [hacc]; rfl)
+  mulChain_sound hc (edwards_assoc hc) hB rows 0 r0 h (by rw [hacc]; rfl)
+
+/-- **Scalars at or above the group order**: if `[r]·base` is the neutral element (`base` in the
+subgroup of order `r`), `[n]·base = [n mod r]·base` for every integer `n` — so the point
+`scalar_mul_loop` returns for a bit string whose value is `r`, `r + 1`, `2^bits − 1`, … is the
+multiple by the reduced scalar, and `0`, `r` give the neutral element. -/
+theorem scalar_mul_mod_order {d : F} (hc : EdComplete d) {base : F × F} (hB : EdOnP d base)
+    (r : Nat) (hr : edSmul d r base = (0, 1)) (n : Nat) :
+    edSmul d n base = edSmul d (n % r) base := by
+  have ha := edwards_assoc hc
+  have hmul : ∀ q : Nat, edSmul d (r * q) base = (0, 1) := by
+    intro q
+    induction q with
+    | zero => rfl
+    | succ q ih =>
+      rw [Nat.mul_succ, edSmul_add hc ha hB, ih, hr]
+      exact edAdd_id_left hc (edOn_id d)
+  have hn : n = r * (n / r) + n % r := (Nat.div_add_mod n r).symm
+  conv => lhs; rw [hn]
+  rw [edSmul_add hc ha hB, hmul]
+  exact edAdd_id_left hc (edSmul_on hc hB _)
+
+/-- Non-vacuity: the neutral element has order 1, every multiple of it is `[0]` of it. -/
+example {d : F} (hc : EdComplete d) (n : Nat) :
+    edSmul d n ((0, 1) : F × F) = edSmul d (n % 1) (0, 1) :=
+  scalar_mul_mod_order hc (base := (0, 1)) (edOn_id d) 1 (by
+    show edAdd d (0, 1) (0, 1) = (0, 1)
+    exact edAdd_id_left hc (P := (0, 1)) (edOn_id d)) n
 
 /-- The scalar of a chain is the big-endian value of its bit column: with the accumulator of
 the first row equal to `[k]·base`, `chainScalar k (r :: t) = foldl (2·acc + b) (k + b_r) t`;
@@ -302,6 +345,70 @@ theorem foreign_negate_sound [DecidableEq F] {b : F} (p : WP F) (hp : p.wf b) :
       simp [wAdd, hpi, this]
     · simp [wAdd, hpi]
 
+/-! ## Foreign chip: the instructions built on the incomplete addition -/
+
+/-- **`incomplete_add` is sound under exactly its preconditions**: `p`, `q` non-identity curve
+points with `p.x ≠ q.x`; whatever `r`, `λ` the prover witnesses, `r = p + q` in the complete law
+and `r` is a non-identity curve point. -/
+theorem foreign_incomplete_add_sound [DecidableEq F] {b : F} {p q r : WP F} {lam : F}
+    (hp : p.wf b) (hq : q.wf b) (hpi : p.isId = false) (hqi : q.isId = false) (hx : p.x ≠ q.x)
+    (h : IncAddHolds p q r lam) : r.same (wAdd p q) ∧ r.wf b ∧ r.isId = false :=
+  incomplete_add_sound hp hq hpi hqi hx h
+
+/-- Non-vacuity: `(0,1) + (2,3) = (−1, 0·…)` on `y² = x³ + 1` passes `incomplete_add`. -/
+example : IncAddHolds (⟨false, 0, 1⟩ : WP F) ⟨false, 2, 3⟩ ⟨false, -1, 0⟩ 1 := by
+  refine ⟨rfl, ?_, ?_, ?_⟩
+  · unfold SlopeId; simp only; grind
+  · unfold LamSqId; simp only; grind
+  · unfold SlopeId; simp only; grind
+
+/-- **Exceptional case `p = −q`: excluded by the emitted constraints** (the first slope identity
+becomes `2·p.y = 0`): `incomplete_add` is unsatisfiable, as its documentation says. -/
+theorem foreign_incomplete_add_opposite_unsat {p q r : WP F} {lam : F} (h2 : (2 : F) ≠ 0)
+    (hy : p.y ≠ 0) (hx : p.x = q.x) (hyn : q.y = -p.y) : ¬ IncAddHolds p q r lam :=
+  incomplete_add_opposite_unsat h2 hy hx hyn
+
+/-- **Exceptional case `p = q`: NOT excluded by `incomplete_add` itself** — every `λ` passes and
+the result is the one-parameter family `(λ² − 2p.x, λ(p.x − r.x) − p.y)`. Soundness of every use
+of `incomplete_add` therefore needs a separate exclusion of `p = q`; the model makes a missing
+exclusion visible: with this lemma the soundness statement of the caller is refutable. -/
+theorem foreign_incomplete_add_equal_unconstrained (p : WP F) (qid : Bool) (lam : F) :
+    IncAddHolds p ⟨qid, p.x, p.y⟩
+      ⟨p.isId, lam * lam - p.x - p.x, lam * (p.x - (lam * lam - p.x - p.x)) - p.y⟩ lam :=
+  incomplete_add_equal_free p qid lam
+
+/-- **Table loop of `windowed_msm`** (`acc₀ = −α`, `acc_k = incomplete_add(acc_{k−1}, p)`): from
+`p.is_id = 0` (asserted), `−α` a non-identity curve point and the single emitted assertion
+`α.x ≠ p.x` (`incomplete_assert_different_x(α, p)`; needed only when the loop is non-empty), every
+addition of the loop is non-exceptional and every table entry is the complete sum of the previous
+entry and `p`, a non-identity curve point — for a loop of any length, with no assumption on the
+order of the points: an entry with `x = p.x` is `−p` and makes the next `incomplete_add`
+unsatisfiable. -/
+theorem windowed_msm_table_sound [DecidableEq F] {b : F} (h2 : (2 : F) ≠ 0)
+    (hno2 : NoTwoTorsion b) {p : WP F} (hp : p.wf b) (hpi : p.isId = false)
+    (rows : List (WP F × F)) (acc : WP F) (hacc : acc.wf b) (hai : acc.isId = false)
+    (hx : rows ≠ [] → acc.x ≠ p.x) (h : TableChain p acc rows) : TableSpec b p acc rows :=
+  table_chain_sound h2 hno2 hp hpi rows acc hacc hai hx h
+
+/-- Non-vacuity: a one-step table on `y² = x³ + 1`. -/
+example : TableChain (⟨false, 2, 3⟩ : WP F) ⟨false, 0, 1⟩ [(⟨false, -1, 0⟩, 1)] := by
+  refine ⟨⟨rfl, ?_, ?_, ?_⟩, trivial⟩
+  · unfold SlopeId; simp only; grind
+  · unfold LamSqId; simp only; grind
+  · unfold SlopeId; simp only; grind
+
+/-- **`mul_by_constant`, small constants: the identity never reaches the incomplete
+multiplication**: `p' = select(base.is_id, g, base)` is not flagged, the result is the identity
+for the identity and `mul base` otherwise, for whatever function `mul_by_u128` computes on
+non-identity points. -/
+theorem mul_by_constant_identity_swap {g idp base p' r' res : WP F} (mul : WP F → WP F)
+    (hg : g.isId = false) (hid : idp.isId = true)
+    (h1 : SelectHolds base.isId g base p') (hm : r' = mul p')
+    (h3 : SelectHolds base.isId idp r' res) :
+    p'.isId = false ∧ (base.isId = true → res.isId = true) ∧
+      (base.isId = false → res = mul base) :=
+  mul_const_swap_sound mul hg hid h1 hm h3
+
 /-! ## Multiplication algorithms of the foreign chip (any commutative group) -/
 
 section Group
@@ -347,6 +454,39 @@ theorem windowed_msm_sound (ws l : Nat) (R : G) (P : Nat → G) (rows : List (Na
 
 /-- Non-vacuity: one base, windows `[1, 2]` of 4 bits: the scalar is `18`. -/
 example : combine 4 (fun _ => 0) [fun _ => 1, fun _ => 2] 0 = 18 := by decide
+
+/-- **`mul_by_u128` as wired (incomplete additions)**: every addition of the loop is an
+`incomplete_add`, i.e. the relation `IncAddG` (unsatisfiable for `a = −b`, the sum for `a ≠ ±b`,
+nothing for `a = b`). If no multiple `m • p` with `0 < m < 2^fuel` is the identity — the chip's
+own argument: the order of every non-identity point exceeds `2^129` — every accepted run returns
+`n • p`, for every `n < 2^fuel` and whatever the prover witnesses. -/
+theorem mul_by_u128_wiring_sound (p : G) (fuel n : ℕ) (hn : n < 2 ^ fuel)
+    (hord : ∀ m : ℕ, 0 < m → m < 2 ^ fuel → m • p ≠ 0) (out : Option G)
+    (h : MulLsbRel fuel n p none out) : optVal out = n • p :=
+  mul_by_u128_incomplete_sound p fuel n hn hord out h
+
+/-- **… and the order hypothesis cannot be dropped**: with a base of order 3 the constraints of
+`mul_by_u128(5, p)` accept every result (the addition `p + 4p` has equal operands). Such bases
+exist on the curve of BLS12-381 G1 (cofactor `3·11²·…`; `(0, ±2)` has order 3) and the chip
+constrains assigned points to the curve only: finding `foreign:bls:mul_by_u128:small-order-base`
+(the harness shows the real circuit rejecting the honest witness of `mul_by_constant(5, (0,2))`
+and, with a forged slope, accepting a result that is not on the curve). -/
+theorem mul_by_u128_needs_large_order (x : ZMod 3) :
+    MulLsbRel 3 5 (1 : ZMod 3) none (some x) := mul_by_u128_small_order_unconstrained x
+
+/-- **`windowed_msm` as wired**: the double-and-add loop whose additions are `incomplete_add`s,
+each preceded by `incomplete_assert_different_x(acc, addend)` (both exceptional cases excluded by
+an emitted constraint), started at `l•R`, with table entries `k•P_j − α`, `α = (2^ws − 1)•R`,
+followed by the COMPLETE `add(acc, −l•R)`: the result is `Σ_j s_j•P_j`, `s_j` the integer with
+the given base-`2^ws` digits — for every prover-chosen `R`. -/
+theorem windowed_msm_wiring_sound (ws l : ℕ) (R : G) (P : ℕ → G) (rows : List (ℕ → ℕ)) (acc : G)
+    (h : WindowLoopRel ws l ((2 ^ ws - 1) • R) P rows (l • R) acc) :
+    acc - l • R = dotN l (combine ws (fun _ => 0) rows) P :=
+  windowed_msm_incomplete_sound ws l R P rows acc h
+
+/-- Non-vacuity: one base `P = 1 ∈ ℤ`, `R = 100`, one window `k = 3`: `acc = 16·100 + (3 − 1500)`. -/
+example : WindowLoopRel 4 1 ((2 ^ 4 - 1) • (100 : ℤ)) (fun _ => 1) [fun _ => 3] (1 • (100 : ℤ)) 103 := by
+  refine ⟨103, ⟨1600, rfl, ⟨by decide, by decide⟩, by decide, fun _ => by decide⟩, rfl⟩
 
 /-- **GLV re-check** (`glv_split`): the circuit asserts `x = ±x₁ + ζ·(±x₂)` in the scalar field
 and uses `P₁ = ±P`, `P₂ = ±φ(P)` with `φ(P) = (ζ_base·x, y) = ζ·P`; then
